@@ -80,16 +80,18 @@ def insertWeighted (sf : ScaleFn α) (s : St α) (x w : α) : Option (St α) :=
     some (if s.backlog.length > s.maxBacklog then merge sf s else s)
   else some s
 
-/-- `interpolate`: `t` is clamped into `[0, 1]` (`t.max(0.).min(1.)`) -/
+/-- `interpolate`: `t` is clamped into `[0, 1]` (`t.max(0.).min(1.)`).  `f64::max` returns the other
+operand when one is NaN, so a NaN `t` (0/0: a centroid whose half weight underflows to 0) becomes 0:
+the test is written `0 ≤ t` (false for NaN), not `t < 0`. -/
 def interpolate (a b t : α) : α :=
-  let t := if t < 0 then 0 else t
+  let t := if 0 ≤ t then t else 0
   let t := if 1 < t then 1 else t
   t * b + (1 - t) * a
 
 /-- `clamped_mean`: `c.mean().max(min).min(max)` -/
 def clampedMean (mn mx : α) (c : Centroid α) : α :=
   let m := c.mean
-  let m := if m < mn then mn else m
+  let m := if mn ≤ m then m else mn     -- `.max(min)`: a NaN mean becomes `min`
   if mx < m then mx else m
 
 /-- the centroid loop of `quantile`: `some r` = returned from inside the loop, `none` = fell through
